@@ -30,6 +30,8 @@ package download
 
 import (
 	"context"
+	"crypto/sha256"
+	"encoding/hex"
 	"encoding/json"
 	"fmt"
 	"math/rand"
@@ -70,7 +72,9 @@ const (
 //
 //	S serve            L serve after DelayMs       R reset the stream       T stall DelayMs, then reset
 //	E reply, no items  N reply, nil message        O reply, wrong oneof     G undecodable reply bytes
-//	B reply whose block field is left nil (on the wire an empty block, i.e. height 0)
+//	V reply with one item that has no value at all (on the wire the same as a nil item)
+//	B reply whose block field is left nil (on the wire an all-default block, i.e. "height 0": for a request of
+//	  height 0 no downloader can tell it from a block, so the generator does not use B at absolute height 0)
 //	W reply with a block of another height (outside the requested range)
 
 func c35Serves(b byte) bool { return b == 'S' || b == 'L' }
@@ -86,6 +90,7 @@ type c35Peer struct {
 type c35Gate struct{ Peer, H, AfterPeer, AfterH int }
 
 type c35Case struct {
+	Zero  bool      `json:"startsAtHeight0,omitempty"` // the range is [0, N-1] (genesis height included) instead of a window of its own
 	N     int       `json:"heights"`
 	Peers []c35Peer `json:"peers"`
 	Gates []c35Gate `json:"gates,omitempty"`
@@ -97,12 +102,16 @@ type c35Req struct {
 	H    int    `json:"h"`    // height relative to the start of the range
 	Pass int    `json:"pass"` // 1 = first pass, 1+k = second-chance pass of the k-th failed height
 	Beh  string `json:"beh"`
+	sum  string // sha256 of the encoded block this reply carried ("" = the reply carried no block)
 }
 
+// c35Delivery is one EventSyncBlock as the blockchain saw it, judged by content: the delivered block is matched
+// byte for byte (hash of its encoding) against the blocks the scripted peers put on the wire.
 type c35Delivery struct {
-	Height int64 `json:"height"`          // relative to the start of the range
-	Seq    int64 `json:"answersSeq"`      // request this block was sent in reply to (marker carried in the block)
-	Empty  bool  `json:"empty,omitempty"` // an all-default block (what behaviour B puts on the wire)
+	Nil    bool  `json:"nilBlock,omitempty"` // BlockPid.Block == nil
+	Height int64 `json:"height"`             // of the delivered block, relative to the start of the range
+	Seq    int   `json:"answersSeq"`         // the request whose reply carried exactly this block; -1 = nobody sent it
+	PidOK  bool  `json:"sourcePidIsSender"`  // BlockPid.Pid names the peer that sent it
 }
 
 // ---- fixture: one client host, five scripted server hosts, one queue with a fake blockchain (per process) ----
@@ -113,7 +122,7 @@ type c35Fixture struct {
 	q       queue.Queue
 	pcli    queue.Client // the protocol's queue client
 	mu      sync.Mutex
-	blocks  []*types.Block // EventSyncBlock payloads in arrival order
+	blocks  []*types.BlockPid // EventSyncBlock payloads in arrival order
 	sentCh  chan int64
 }
 
@@ -157,7 +166,7 @@ func c35Setup() *c35Fixture {
 				switch msg.Ty {
 				case types.EventSyncBlock:
 					f.mu.Lock()
-					f.blocks = append(f.blocks, msg.Data.(*types.BlockPid).Block)
+					f.blocks = append(f.blocks, msg.Data.(*types.BlockPid))
 					f.mu.Unlock()
 				case c35SentinelTy:
 					f.sentCh <- msg.Data.(int64)
@@ -217,6 +226,7 @@ func (m *c35PIM) PeerMaxHeight() (max int64) {
 // ---- one running case ----
 
 type c35Run struct {
+	id    int64
 	c     c35Case
 	base  int64
 	p     *Protocol
@@ -310,6 +320,11 @@ func (r *c35Run) sleep(d time.Duration) {
 
 var c35Header = append(append([]byte{byte(len("/protobuf/msgio") + 1)}, "/protobuf/msgio"...), '\n')
 
+func c35Sum(b *types.Block) string {
+	h := sha256.Sum256(types.Encode(b))
+	return hex.EncodeToString(h[:])
+}
+
 func c35Handle(peerIdx int, s network.Stream) {
 	var req types.MessageGetBlocksReq
 	if err := protocol.ReadStream(&req, s); err != nil || req.Message == nil {
@@ -327,7 +342,20 @@ func c35Handle(peerIdx int, s network.Stream) {
 	pass := r.pass()
 	r.mu.Lock()
 	seq := len(r.log)
-	r.log = append(r.log, c35Req{Seq: seq, Peer: peerIdx, H: h, Pass: pass, Beh: string(beh)})
+	// the block this peer would serve: unique content per case, peer and request
+	block := &types.Block{Height: r.base + int64(h), Version: int64(peerIdx) + 1, BlockTime: int64(seq) + 1,
+		TxHash: []byte(fmt.Sprintf("c35 case %d peer %d request %d", r.id, peerIdx, seq))}
+	sum := ""
+	switch beh {
+	case 'W':
+		block.Height += int64(r.c.N) + 3 // outside the requested range
+		fallthrough
+	case 'S', 'L':
+		sum = c35Sum(block)
+	case 'B':
+		sum = c35Sum(&types.Block{})
+	}
+	r.log = append(r.log, c35Req{Seq: seq, Peer: peerIdx, H: h, Pass: pass, Beh: string(beh), sum: sum})
 	if len(r.log) == r.bound+1 {
 		close(r.over)
 	}
@@ -344,7 +372,6 @@ func c35Handle(peerIdx int, s network.Stream) {
 			}
 		}
 	}
-	block := &types.Block{Height: r.base + int64(h), Version: int64(peerIdx), BlockTime: int64(seq)}
 	reply := func(m *types.MessageGetBlocksResp) {
 		if protocol.WriteStream(m, s) != nil {
 			_ = s.Reset()
@@ -372,6 +399,8 @@ func c35Handle(peerIdx int, s network.Stream) {
 		reply(&types.MessageGetBlocksResp{})
 	case 'O':
 		reply(one(&types.InvData{Ty: 1, Value: &types.InvData_Tx{Tx: &types.Transaction{Execer: []byte("none")}}}))
+	case 'V':
+		reply(one(&types.InvData{Ty: 2}))
 	case 'B':
 		reply(one(&types.InvData{Ty: 2, Value: &types.InvData_Block{}}))
 	case 'G':
@@ -379,7 +408,6 @@ func c35Handle(peerIdx int, s network.Stream) {
 		_ = msgio.NewWriter(s).WriteMsg([]byte{0xff, 0xff, 0xff, 0xff, 0x07})
 		_ = s.Close()
 	case 'W':
-		block.Height += int64(r.c.N) + 3 // outside the requested range
 		reply(one(&types.InvData{Ty: 2, Value: &types.InvData_Block{Block: block}}))
 	}
 }
@@ -411,9 +439,14 @@ func c35Short(o c35Obs) string {
 	}
 	sb.WriteString(" delivered(height<-seq):")
 	for _, d := range o.Delivered {
-		if d.Empty {
-			sb.WriteString(" empty-block")
-		} else {
+		switch {
+		case d.Nil:
+			sb.WriteString(" NIL-BLOCK")
+		case d.Seq < 0:
+			fmt.Fprintf(&sb, " h%d<-nobody", d.Height)
+		case !d.PidOK:
+			fmt.Fprintf(&sb, " h%d<-%d(wrong source pid)", d.Height, d.Seq)
+		default:
 			fmt.Fprintf(&sb, " h%d<-%d", d.Height, d.Seq)
 		}
 	}
@@ -434,7 +467,11 @@ func c35Short(o c35Obs) string {
 func c35Exec(c c35Case) c35Obs {
 	f := c35Setup()
 	id := atomic.AddInt64(&c35Seq, 1)
-	r := &c35Run{c: c, base: id * c35Window, bound: 100*c.N + 10, over: make(chan struct{}), done: make(chan struct{}),
+	base := id * c35Window
+	if c.Zero {
+		base = 0 // stray traffic of an abandoned earlier case cannot be told apart here; it only exists after a failure
+	}
+	r := &c35Run{id: id, c: c, base: base, bound: 100*c.N + 10, over: make(chan struct{}), done: make(chan struct{}),
 		pollBound: 3 * 50 * len(c.Peers), polls: map[c35PollKey]*c35Poll{}, stuck: make(chan struct{})}
 	lat, hts, pidx := map[peer.ID]time.Duration{}, map[peer.ID]int64{}, map[peer.ID]int{}
 	var pids []string
@@ -467,12 +504,22 @@ func c35Exec(c c35Case) c35Obs {
 		o.Reqs = append(o.Reqs, r.log...)
 		r.mu.Unlock()
 		f.mu.Lock()
-		for _, b := range f.blocks {
-			if b.Height == 0 && b.BlockTime == 0 {
-				o.Delivered = append(o.Delivered, c35Delivery{Seq: -1, Empty: true})
-			} else {
-				o.Delivered = append(o.Delivered, c35Delivery{Height: b.Height - r.base, Seq: b.BlockTime})
+		for _, bp := range f.blocks {
+			if bp.Block == nil {
+				o.Delivered = append(o.Delivered, c35Delivery{Nil: true, Seq: -1})
+				continue
 			}
+			d := c35Delivery{Height: bp.Block.Height - r.base, Seq: -1}
+			sum := c35Sum(bp.Block)
+			for _, q := range o.Reqs { // prefer the reply that was sent for this very height (empty blocks all look alike)
+				if q.sum == sum && (d.Seq < 0 || int64(q.H) == d.Height) {
+					d.Seq = q.Seq
+				}
+			}
+			if d.Seq >= 0 {
+				d.PidOK = bp.Pid == f.servers[o.Reqs[d.Seq].Peer].ID().String()
+			}
+			o.Delivered = append(o.Delivered, d)
 		}
 		f.mu.Unlock()
 		o.pollBound = r.pollBound
@@ -555,29 +602,33 @@ func c35Check(c c35Case, o c35Obs) (probs []c35Problem, reasked, secondChance bo
 	// --- 1. delivery ---
 	got := map[int]bool{}
 	wrongReply := map[int]bool{} // heights to which some peer answered with a block of another height (W, B)
-	emptyReply := false
 	for _, q := range o.Reqs {
 		if q.Beh == "W" || q.Beh == "B" {
 			wrongReply[q.H] = true
-			emptyReply = emptyReply || q.Beh == "B"
 		}
 	}
+	// what was delivered is judged as an object, not by its height getter: non-nil, byte-identical to a block that a
+	// given peer put on the wire in reply to a request of that height, and attributed to that peer
 	for _, d := range o.Delivered {
-		if d.Empty && emptyReply { // signature: the delivered block is the empty reply itself
-			bad(c35FindWrongHeight, "an empty block (height 0) was delivered to the blockchain")
+		if d.Nil {
+			bad("", "a nil block was delivered to the blockchain (EventSyncBlock whose BlockPid.Block is nil)")
 			continue
 		}
-		if d.Seq < 0 || int(d.Seq) >= len(o.Reqs) {
-			bad("", "a block was delivered that no scripted peer sent (height h%d, marker %d)", d.Height, d.Seq)
+		if d.Seq < 0 {
+			bad("", "a block was delivered whose content no scripted peer sent (height h%d)", d.Height)
 			continue
 		}
 		q := o.Reqs[d.Seq]
 		if int64(q.H) != d.Height {
 			f := ""
-			if q.Beh == "W" { // signature: the delivered block is the wrong-height reply itself
+			if q.Beh == "W" || q.Beh == "B" { // signature: the delivered block is the wrong-height (or all-default) reply itself
 				f = c35FindWrongHeight
 			}
-			bad(f, "the block delivered for the request of height h%d (answered by peer %d) has height h%d", q.H, q.Peer, d.Height)
+			bad(f, "the block delivered for the request of height h%d (answered by peer %d, behaviour %s) has height h%d", q.H, q.Peer, q.Beh, d.Height)
+			continue
+		}
+		if !d.PidOK {
+			bad("", "the block of height h%d was sent by peer %d but delivered under another source pid", d.Height, q.Peer)
 			continue
 		}
 		got[q.H] = true
@@ -651,6 +702,11 @@ func c35Check(c c35Case, o c35Obs) (probs []c35Problem, reasked, secondChance bo
 
 func c35Gen(t *rapid.T) c35Case {
 	n := rapid.OneOf(rapid.IntRange(1, 5), rapid.IntRange(1, 40), rapid.IntRange(10, 40)).Draw(t, "heights")
+	// the event accepts any start <= end, so ranges that include the genesis height 0 (also [0,0]) are requested too
+	zero := rapid.IntRange(0, 3).Draw(t, "fromHeight0") == 0
+	if zero && rapid.IntRange(0, 2).Draw(t, "onlyHeight0") == 0 {
+		n = 1
+	}
 	k := rapid.IntRange(2, c35MaxPeers).Draw(t, "peers")
 	idx := make([]int, k)
 	for i := range idx {
@@ -670,7 +726,7 @@ func c35Gen(t *rapid.T) c35Case {
 					beh[h] = 'L'
 				}
 			} else {
-				beh[h] = rapid.SampledFrom([]byte("RRTENOBGW")).Draw(t, "failure")
+				beh[h] = rapid.SampledFrom([]byte("RRTENOVBGW")).Draw(t, "failure")
 			}
 			if beh[h] == 'L' || beh[h] == 'T' {
 				if delays == 0 {
@@ -755,6 +811,39 @@ func c35Gen(t *rapid.T) c35Case {
 				continue
 			}
 			set(tall[rapid.IntRange(0, len(tall)-1).Draw(t, "rescuer")], h, 'S')
+		}
+	}
+	if zero {
+		c.Zero = true
+		set := func(i, h int, b byte) {
+			bb := []byte(c.Peers[i].Beh)
+			bb[h] = b
+			c.Peers[i].Beh = string(bb)
+		}
+		for i := range c.Peers {
+			if c.Peers[i].Beh[0] == 'B' { // see the legend: at absolute height 0 this is a block
+				set(i, 0, 'V')
+			}
+		}
+		// half of these: the peer asked first for height 0 answers with an item that carries no block (every shape
+		// of it) and another given peer serves the genuine block 0
+		if rapid.Bool().Draw(t, "genesisItemWithoutBlock") {
+			first, other := -1, -1
+			for i, pr := range c.Peers {
+				if pr.Claim > 0 && (first < 0 || pr.LatencyMs < c.Peers[first].LatencyMs) {
+					first = i
+				}
+			}
+			for _, i := range rapid.Permutation(idx).Draw(t, "genesisServer") {
+				if i != first && c.Peers[i].Claim > 0 {
+					other = i
+					break
+				}
+			}
+			if first >= 0 && other >= 0 {
+				set(first, 0, rapid.SampledFrom([]byte("OV")).Draw(t, "itemShape"))
+				set(other, 0, 'S')
+			}
 		}
 	}
 	return c
@@ -855,6 +944,24 @@ func c35Classes(c c35Case, o c35Obs, reasked, second bool) {
 	}
 	if partial {
 		lib.Class("partial_availability")
+	}
+	if c.Zero {
+		lib.Class("range_starts_at_height_0")
+		if c.N == 1 {
+			lib.Class("range_is_0_0")
+		}
+		first, served := -1, false
+		for i, pr := range c.Peers {
+			if pr.Claim > 0 && (first < 0 || pr.LatencyMs < c.Peers[first].LatencyMs) {
+				first = i
+			}
+		}
+		for i, pr := range c.Peers {
+			served = served || (i != first && pr.Claim > 0 && c35Serves(pr.Beh[0]))
+		}
+		if first >= 0 && served && strings.ContainsRune("OV", rune(c.Peers[first].Beh[0])) {
+			lib.Class("height_0_first_peer_item_without_block_other_serves")
+		}
 	}
 	noinfo, above, onlyTallFails, starved := false, false, false, false
 	for _, pr := range c.Peers {
@@ -999,4 +1106,18 @@ func TestRegress_C35StarvedHeightTerminates(t *testing.T) {
 	defer lib.Flush()
 	c35Pinned(t, "TestRegress_C35StarvedHeightTerminates", "", c35Case{N: 2, Peers: []c35Peer{
 		{LatencyMs: 10, Claim: 2, Beh: "SR"}, {LatencyMs: 20, Claim: 1, Beh: "SS"}}}, "")
+}
+
+// Regression for the genesis boundary: range [0,0] (and [0,2]), the preferred peer answers height 0 with a
+// well-formed reply whose only item carries no block (a transaction item / an item without value), the second peer
+// serves block 0. The genuine block 0 must reach the blockchain, as a non-nil block, from the peer that sent it.
+func TestRegress_C35GenesisItemWithoutBlock(t *testing.T) {
+	defer lib.Flush()
+	for _, c := range []c35Case{
+		{Zero: true, N: 1, Peers: []c35Peer{{LatencyMs: 10, Claim: 1, Beh: "O"}, {LatencyMs: 20, Claim: 1, Beh: "S"}}},
+		{Zero: true, N: 1, Peers: []c35Peer{{LatencyMs: 10, Claim: 1, Beh: "V"}, {LatencyMs: 20, Claim: 1, Beh: "S"}}},
+		{Zero: true, N: 3, Peers: []c35Peer{{LatencyMs: 10, Claim: 3, Beh: "VSO"}, {LatencyMs: 20, Claim: 3, Beh: "SSS"}}},
+	} {
+		c35Pinned(t, "TestRegress_C35GenesisItemWithoutBlock", "", c, "")
+	}
 }
